@@ -238,6 +238,10 @@ class XExprEvaluator(ModelVisitor):
         else:
             self.is_x = False
             self.val = f.get_val()
+            # Elements of a list of signed values hold their bit pattern:
+            # compare the value those bits stand for
+            if f.is_signed and int(self.val) >= (1 << (f.width-1)):
+                self.val = ValueScalar(int(self.val) - (1 << f.width))
             
     def visit_enum_field(self, f:EnumFieldModel):
         if f.is_used_rand:
